@@ -23,7 +23,7 @@ package types
 //@ define uniqueDenoms(c) := allOf(c.CommittedTokens, t, sumOver(c.CommittedTokens, u, ite(u.Denom == t.Denom, 1, 0)) == 1)
 
 //@ func (*Commitments).GetCommittedAmountForDenom
-//@ ensures C12/getter-is-spec: result == committedOf(c, denom)
+//@ ensures C12,C13/getter-is-spec: result == committedOf(c, denom)
 //@ modifies nothing
 
 //@ func (*Commitments).AddCommittedTokens
